@@ -232,6 +232,27 @@ def case_config(case):
                 diffs.append("params %r != %r" % (r["params"], m))
             if diffs:
                 v.append({"sub": "pipeline", "sig": "pipeline/%s" % diffs[0].split(" ")[0], "msg": "tower %s step %d: high-level run differs from the hand-written pipeline in %s; %s" % (tw.name, i, ", ".join(diffs), lab)})
+    if len(devs) <= 1 and cfg.towers:
+        # the tower is the CALLER'S object: a same-named copy of the first configured tower, one boom higher and a few metres
+        # away (a what-if run) - "the tower's height ... the tower's local coordinates as measurement point"
+        import dataclasses
+
+        t0 = cfg.towers[0]
+        tw2 = dataclasses.replace(t0, z_m=t0.z_m + 1.5, x=(t0.x or 0.0) + 7.5, y=(t0.y or 0.0) + 5.0)
+        n += 2
+        with warnings.catch_warnings():
+            warnings.simplefilter("ignore")
+            try:
+                r2 = run_bldfm_single(cfg, tw2, met_index=0, surface_flux=q_user)
+                (g2, c2, f2), m2 = manual(cfg, tw2, 0, q_user)
+            except Exception:  # noqa - a what-if tower the library or the pipeline refuses: nothing to compare
+                r2 = None
+        if r2 is not None:
+            bad = [nm for nm, a, b in (("conc", r2["conc"], c2), ("flx", r2["flx"], f2)) if not (np.shape(a) == np.shape(b) and np.array_equal(a, b, equal_nan=True))]
+            if r2["tower_xy"] != (tw2.x, tw2.y):
+                bad.append("tower_xy %r != %r" % (r2["tower_xy"], (tw2.x, tw2.y)))
+            if bad:
+                v.append({"sub": "pipeline", "sig": "pipeline/own-tower", "msg": "a same-named copy of tower %s with z_m=%g at (%g, %g) handed to the run: differs from the pipeline for THAT tower's numbers in %s; %s" % (t0.name, tw2.z_m, tw2.x, tw2.y, ", ".join(bad), lab)})
     return {"v": v[:5], "nt": runs if runs else 1, "key": core.canon(case), "n": n, "obs": {"tower_step_runs_compared": runs, "towers": len(cfg.towers), "steps": cfg.met.n_timesteps}}
 
 
@@ -483,6 +504,8 @@ def run(ctx):
         "evaluations counts executions of either side" % (dmax, len(cs))
     )
     res = ctx.run_cases(case_config, cs, sub="config")
+    from vf import callerenv
+    callerenv.run(ctx, case_config, [{"devs": []}, {"devs": [["met", "__z0_only", 0.05]]}, {"devs": [["met", "z0", 0.1]]}])
     ctx.cov["deviation_bound_completed"] = dmax
     ctx.cov["configurations"] = len(cs)
     ctx.cov["tower_step_runs_compared"] = int(sum(r.get("obs", {}).get("tower_step_runs_compared", 0) for r in res))
